@@ -67,6 +67,7 @@ func Main(repo, verifDir, property, tier, onlyKey string, t0 time.Time) int {
 			spec := Specs[id]
 			r := NewReport(p, id, tier)
 			r.Shared = sh
+			r.VerifDir = verifDir
 			r.Witness = witness[id]
 			r.Configs = []string{"GOARCH=" + runtimeArch()}
 			if tier == "thorough" {
@@ -94,6 +95,15 @@ type Shared struct {
 	l      *LFacts
 	bodies []*applyBody
 	u      *Units
+	fp     map[string][]string
+	fpw    map[string]map[string]footWitness
+}
+
+func (s *Shared) Footprints() (map[string][]string, map[string]map[string]footWitness) {
+	if s.fp == nil {
+		s.fp, s.fpw = computeFootprints(s.Lockset())
+	}
+	return s.fp, s.fpw
 }
 
 func (s *Shared) Lockset() *LFacts {
